@@ -151,7 +151,7 @@ EXPORT char *_gets_s_chk(char *restrict dest, rsize_t dmax,
     if (likely(ret)) {
         rsize_t len = (rsize_t)strnlen(dest, dmax);
         if (len > 0 && dest[len - 1] == '\n') {
-            dest[len - 1] = 0;
+            dest[--len] = 0;
         } else if (len == (rsize_t)(dmax - 1) && !feof(stdin)) {
             /* dest is full without a newline: the line only fits if it
                ends right here */
@@ -163,6 +163,11 @@ EXPORT char *_gets_s_chk(char *restrict dest, rsize_t dmax,
                 goto nospc;
             }
         }
+#ifdef SAFECLIB_STR_NULL_SLACK
+        /* null the slack behind the line, as documented */
+        if (ret)
+            memset(&dest[len], 0, dmax - len);
+#endif
     } else {
         if (!feof(stdin) && errno == 0) { /* closed? */
         nospc:
